@@ -25,7 +25,7 @@ FUNCTIONS = ["WatermarkedStream::new", "WatermarkedStream::add_event", "Watermar
              "LateDataHandler::stats", "Watermark::new", "Watermark::is_late"]
 TIERS = {
     "quick": [{"K": 5}],
-    "thorough": [{"K": 8}, {"K": 12, "ts_max": 40}],
+    "thorough": [{"K": 8}, {"K": 10, "ts_max": 40}],
 }
 ASSUMPTIONS = [
     "events carry empty payload maps and constant id/type/source strings (watermark.rs never reads them)",
